@@ -578,6 +578,16 @@ def srvCmd (st : St) : List String → St × String
     | _, _, _, _, _, _, _, _, _, _, _, _ => (st, "bad-op")
   | _ => (st, "bad-op")
 
+/-- `loop serve <hex> <hex> …`: reply XIDs and whether the connection ends up closed -/
+def loopCmd : List String → String
+  | "serve" :: recs =>
+    match recs.mapM fromHex with
+    | some rs =>
+      let r := ConnLoop.serve Gen.maxRpcAuth rs
+      s!"xids={natList r.1} closed={if r.2 then 1 else 0}"
+    | none => "bad-op"
+  | _ => "bad-op"
+
 def durCmd (st : St) : List String → St × String
   | ["reset"] => ({ st with dur := { data := [], durable := [] } }, "ok")
   | ["write", off, d] => match off.toNat?, fromHex d with
@@ -739,6 +749,7 @@ def step (st : St) (line : String) : St × String :=
   | "drain" :: args => drainCmd st args
   | "srv" :: args => srvCmd st args
   | "dur" :: args => durCmd st args
+  | "loop" :: args => (st, loopCmd args)
   | "conns" :: args => (st, connsCmd args)
   | "fs" :: args => fsCmd st args
   | ["reset"] => ({}, "ok")
